@@ -137,8 +137,10 @@ theorem commit_post {cfg : Cfg} {T : List Tx} {fs : FS} {m : Mem} {cs : List CTx
   obtain ⟨_, _, hBF, hSF, _, lenF, idlF, idsF, _⟩ :=
     nodesA_safe (cfg := cfg) (N := allNodes (T ++ [tx])) (c := c') (p0 := fs.pd) h.pager.booted hsync tx.nodes
       (allNodes T).length (fs1.step .ws) (m.ps fs.pv) { start := m.idStart, len := m.idLen } [] hdropF hB hSy hpm hl1 h.mlen hl2 hl3 hcN hl4
+      (by show fs.pd.bm ≤ fs.pv.bm; rw [h.pv]; exact Nat.le_refl _)
   have hMF := memFacts_nodesA (cfg := cfg) (N := allNodes (T ++ [tx])) (c := c') (p0 := fs.pd) h.pager.booted hsync tx.nodes
       (allNodes T).length (fs1.step .ws) (m.ps fs.pv) { start := m.idStart, len := m.idLen } [] hdropF hB hSy hpm hl1 h.mlen hl2 hl3 hcN hl4
+      (by show fs.pd.bm ≤ fs.pv.bm; rw [h.pv]; exact Nat.le_refl _)
   obtain ⟨_, hpg⟩ := (pagerActs_nodes cfg tx.nodes (m.ps fs.pv) { start := m.idStart, len := m.idLen }).facts
   -- the final file-system state
   have hfinal : fs.steps (ioSteps (commitA cfg m fs.pv fs.wf tx)) =
